@@ -228,6 +228,45 @@ def model_check(ctx):
                required_actions=["MCInit", "Validate", "MutateRule", "Revalidate"])
 
 
+def synthesis(ctx, prop, binary):
+    """spec -> impl: TLC enumerates abstract recipes with the reference verdict (GenPhase1), the harness
+    synthesises a real signed transaction per recipe and runs validate_tx; the property's demand is decided
+    by TLC as for the mutated fixtures. Reference verdict vs implementation verdict is DRIFT only."""
+    gcfg = "GenPhase1.cfg"
+    if ctx.thorough:
+        gcfg = ctx.path("GenPhase1_thorough.cfg")
+        src = open(os.path.join(vlib.SPEC, "ledger", "GenPhase1.cfg")).read()
+        open(gcfg, "w").write(src.replace("MaxOff = 2", "MaxOff = 3"))
+    vec = ctx.path("synth_vectors.ndjson")
+    n = ctx.tlc_gen("ledger", "GenPhase1", gcfg, vec, workers=1, timeout=1500)
+    tr = ctx.path("synth_trace.ndjson")
+    out = ctx.run_bin(binary, ["phase1-synth", "--in", vec, "--out", tr])
+    res = json.loads(out.strip().splitlines()[-1])
+    per_era = {}
+    for k, v in res["stats"].items():
+        era, verdict = k.split("/")
+        per_era.setdefault(era, {})[verdict] = v
+    for era in ("shelley", "mary", "alonzo", "babbage", "conway"):
+        st = per_era.get(era, {})
+        if st.get("accept", 0) == 0:
+            raise vlib.ToolError("synthesis is vacuous: no synthesised %s transaction is accepted by validate_tx (%s)" % (era, st))
+        if sum(v for k, v in st.items() if k != "not-expressible") < 50:
+            raise vlib.ToolError("fewer than 50 synthesised transactions in era %s: %s" % (era, st))
+    events = vlib.read_ndjson(tr)
+    ctx.sample({"synthesised": {k: v for k, v in events[len(events) // 2].items() if k != "T"}})
+    matched = validate(ctx, prop, events, "synth")
+    ctx.cov["traces_validated_against_impl"] += len(events)
+    ctx.cov["evaluations"] += matched
+    ctx.cov["synthesised_transactions"] = len(events)
+    ctx.cov["synthesised_per_era"] = per_era
+    ctx.cov["tlc_vectors"] = n
+    if res["drift"]:
+        total = sum(res["drift"].values())
+        ctx.notes.append("DRIFT (reference Accept of the recipe vs validate_tx, %d of %d synthesised transactions; the reference models "
+                         "a subset of the rules, so this is information, not a verdict): %s" % (
+                             total, len(events), "; ".join("%dx %s" % (v, k) for k, v in sorted(res["drift"].items())[:12])))
+
+
 def run_phase1(ctx, prop, rule_text, min_events=20):
     binary = ctx.build("pv-ledger")
     ctx.assume("fixtures = the accepted (successful_*) cases of pallas-validate/tests/*.rs, transcribed mechanically "
@@ -253,9 +292,12 @@ def run_phase1(ctx, prop, rule_text, min_events=20):
     ctx.cov["evaluations"] += matched
     ctx.cov["mutator_classes"] = len({e["mut"] for e in events})
     ctx.cov["fixtures"] = len({e["fx"] for e in events})
+    synthesis(ctx, prop, binary)
     if not ctx.violations:
         selftest(ctx, prop, events)
-    return ctx.finish(rule=rule_text, exhaustive=False)
+    return ctx.finish(rule=rule_text + "; M1/M2: TLC-generated abstract recipes (GenPhase1, all deviations from the valid default in "
+                                       "<= 2 (quick) / 3 (thorough) dimensions, 5 eras) synthesised into real signed transactions and "
+                                       "validated the same way", exhaustive=False)
 
 
 def run(ctx):
